@@ -43,16 +43,18 @@ def deferred_raise(h, trynode, fn):
             continue
         else:
             return None
-    end = getattr(trynode, "end_lineno", trynode.lineno)
+    # order of statements by their place in the function (not by line numbers: inlined helpers carry synthetic positions)
+    order = {id(x): i for i, x in enumerate(iter_stmts(fn.body))}
+    end = max(order[id(x)] for x in iter_stmts([trynode]) if id(x) in order)
     for st in iter_stmts(fn.body):
-        if not isinstance(st, ast.Raise) or st.lineno <= end:
+        if not isinstance(st, ast.Raise) or order[id(st)] <= end:
             continue
         for test, pol in guards_of(st, fn):
             txt = U(test)
             for v in names:
                 if (txt == v and not pol) or (txt in (f"not {v}", f"{v} is None") and pol):
                     # the name must not be re-bound between the handler and the raise
-                    rebinds = [a for a in iter_stmts(fn.body) if isinstance(a, ast.Assign) and end < a.lineno < st.lineno
+                    rebinds = [a for a in iter_stmts(fn.body) if isinstance(a, ast.Assign) and end < order[id(a)] < order[id(st)]
                                and any(isinstance(t_, ast.Name) and t_.id == v for t_ in a.targets)]
                     if not rebinds:
                         return v, st.lineno
